@@ -562,6 +562,20 @@ func main() {
 		all(h+"/repo:tag", false)
 		run.Count("host_shaped_strings", 1)
 	}
+	// bare repository names around the length limit, spelt with and without each of the characters that
+	// other parts of a reference are recognised by
+	for _, n := range []int{254, 255, 256, 257, 300, 1000} {
+		for _, unit := range []string{"a", "ab/", "a-b_c/", "a.b/", "x__y/", "0"} {
+			name := strings.Repeat(unit, n/len(unit)+1)[:n]
+			name = strings.TrimRight(name, "/-_.")
+			for len(name) < n {
+				name += "z"
+			}
+			all(name, true)
+			all(name+":tag", false)
+			run.Count("names_around_the_length_limit", 1)
+		}
+	}
 	// repository names made of the routing layer's own words, adjacent and in order
 	for _, s := range []string{"mirror/blobs/uploads", "blobs/uploads", "x/blobs/uploads/y", "mirror/blobs/uploads-v2/cache", "a/blobs/uploads/b/blobs/uploads",
 		"manifests/tags/list", "a/tags/list/b", "tags/list", "v2/_catalog", "v2", "x/manifests/y", "x/referrers/y", "blobs", "uploads", "a/blobs/b", "a/manifests",
